@@ -23,7 +23,7 @@ fn dact(u: &mut Unstructured<'_>, depth: u32) -> arbitrary::Result<DAct> {
 }
 
 fn op(u: &mut Unstructured<'_>, consume: bool, depth: u32) -> arbitrary::Result<Op> {
-    let hi = if consume { 22u8 } else { 14 };
+    let hi = if consume { 24u8 } else { 14 };
     Ok(match u.int_in_range(0u8..=hi)? {
         0 => {
             let mut d = vec![];
@@ -55,7 +55,9 @@ fn op(u: &mut Unstructured<'_>, consume: bool, depth: u32) -> arbitrary::Result<
         19 => Op::FromRaw(u.arbitrary()?),
         20 => Op::IncStrong(u.arbitrary()?),
         21 => Op::DecStrong(u.arbitrary()?),
-        _ => Op::DropLoose(u.arbitrary()?),
+        22 => Op::DropLoose(u.arbitrary()?),
+        23 => Op::WeakIntoRaw(u.arbitrary()?),
+        _ => Op::WeakFromRaw(u.arbitrary()?),
     })
 }
 
